@@ -40,6 +40,7 @@ def blocks(depth, rnd=None, cap=None):
         for b1 in heads:
             for b2 in heads:
                 out.append([f"if {c}:"] + ind(b1) + ["else:"] + ind(b2))
+    out.extend(elif_shapes())
     for b in bodies:
         for it in ("it", "[1, 2]", "[]", "5"):
             out.append([f"for v in {it}:"] + ind(b))
@@ -58,6 +59,18 @@ def blocks(depth, rnd=None, cap=None):
             out.append(["try:"] + ind(b) + ["except E:", f"    {ex}"])
         out.append(["try:"] + ind(b) + ["except E:", "    pass", "else:", "    break"])
         out.append(["try:"] + ind(b) + ["finally:", "    break"])
+    return out
+
+
+def elif_shapes():
+    """elif chains: a constant condition in the middle of a chain still depends on the conditions before it"""
+    out = []
+    for c in CONDS:
+        for c2 in CONDS:
+            for b1, b2, b3 in (("obs(1)", "obs(2)", "obs(3)"), ("return 1", "obs(2)", "obs(3)"), ("obs(1)", "return 2", "obs(3)"), ("obs(1)", "obs(2)", "break")):
+                out.append([f"if {c}:", "    " + b1, f"elif {c2}:", "    " + b2, "else:", "    " + b3])
+                out.append([f"if {c}:", "    " + b1, f"elif {c2}:", "    " + b2])
+                out.append([f"if {c}:", "    " + b1, f"elif {c2}:", "    " + b2, "elif u2:", "    " + b3, "else:", "    obs(4)"])
     return out
 
 
@@ -378,6 +391,8 @@ def run(tier, seed):
         shapes = rnd.sample(shapes, 8000)
     else:
         cons_shapes = rnd.sample(shapes, min(len(shapes), 5000))
+    have = {"\n".join(x) for x in cons_shapes}
+    cons_shapes = cons_shapes + [x for x in elif_shapes() if "\n".join(x) not in have]
     stmts = [f"{e}" for e in EXPRS] + STMTS
     ctx = mp.get_context("fork")
     with ctx.Pool(16, maxtasksperchild=300) as pool:
